@@ -216,11 +216,11 @@ target(U + 'limit_memory_usage', area='Limits', owners=['C08'], raises=True, var
        params=[('quota_or_engine', 'int'), ('args', '[(int, @Nat)]')], ret='unit',
        prims={'sys.getsizeof': Prim('(({0} : Nat) : Int)', ['@Nat', 'int'], INT)},
        pyargs=lambda q, args: (q, tuple((c, _sized(n)) for c, n in args)),
-       pre=lambda q, args: all(n >= 16 for _c, n in args),
+       pre=lambda q, args: all(n >= 32 for _c, n in args),
        model='if Yaql.Limits.limitMemory quota_or_engine args then .ok () else .error (.other 1)',
        theorem='limit_memory_usage_src_eq',
        note='quota given directly (the int branch of isinstance(quota_or_engine, int)); the differential uses sample '
-            'objects of size >= 16 (a python object cannot be smaller than its GC header)')
+            'objects of size >= 32 (a python object cannot be smaller than its header)')
 target(U + 'limit_iterable', area='Limits', owners=['C08'], raises=True, errors=QUOTA_ERR, name='limit_iterable_sized',
        params=[('iterable', VL), ('limit_or_engine', 'int')], ret=VL,
        model='match Yaql.Limits.limitSized (Yaql.Py.limitOf limit_or_engine) iterable.length with '
@@ -318,6 +318,83 @@ target(C + 'int_by_list', area='Seq', owners=['C13'], raises=True, ambient=SIZES
        pre=lambda left, right, engine: abs(left) < 2 ** 20,
        model='if Yaql.Limits.listByIntCheck sizes engine kind right.length left then .ok (%slistByInt right left) '
              'else .error (.other 1)' % SEQ, theorem='int_by_list_src_eq')
+
+
+# ------------------------------------------------------------------------------------------------ C15 math / common / boolean
+NUM = '@Yaql.Scalar.Num'
+SVAL = '@Yaql.Scalar.SVal'
+FOPS = [('F', 'Yaql.Scalar.FloatOps')]
+
+
+def _numop(op):
+    return Prim('(Yaql.PyNum.arith {F} .%s {0} {1})' % op, [NUM, NUM], T(SVAL), partial=True)
+
+
+UNIVERSES['Yaql.Scalar.Num'] = dict(
+    narrow={'int': ('Yaql.Scalar.Num.int', 'int')},
+    isinstance={'int': '(Yaql.PyNum.isInt {0})'},
+    inject={'int': '(Yaql.Scalar.Num.int {0})'},
+    ops={'Add': _numop('add'), 'Sub': _numop('sub'), 'Mult': _numop('mul'), 'Mod': _numop('mod'),
+         'Div': Prim('(Yaql.PyNum.truediv {F} {0} {1})', [NUM, NUM], T(SVAL), partial=True),
+         'USub': Prim('(Yaql.PyNum.neg {0})', [NUM], T(SVAL)), 'UAdd': Prim('(Yaql.PyNum.pos {0})', [NUM], T(SVAL)),
+         'Lt': Prim('(Yaql.PyNum.lt {0} {1})', [NUM, NUM], BOOL), 'LtE': Prim('(Yaql.PyNum.le {0} {1})', [NUM, NUM], BOOL),
+         'Gt': Prim('(Yaql.PyNum.gt {0} {1})', [NUM, NUM], BOOL), 'GtE': Prim('(Yaql.PyNum.ge {0} {1})', [NUM, NUM], BOOL)},
+    codec=('Yaql.Drv.SrcCodec.decNum', 'Yaql.Drv.SrcCodec.encNum'),
+)
+UNIVERSES['Yaql.Scalar.SVal'] = dict(
+    inject={'int': '(Yaql.Scalar.SVal.int {0})', 'bool': '(Yaql.Scalar.SVal.bool {0})', 'str': '(Yaql.Scalar.SVal.str {0})'},
+    isinstance={'int': '(Yaql.PyNum.svIsInt {0})', 'bool': '(Yaql.PyNum.svIsBool {0})',
+                'float': '(Yaql.PyNum.svIsFloat {0})', 'str': '(Yaql.PyNum.svIsStr {0})'},
+    truthy='(Yaql.Scalar.truthy {0})',
+    ops={'Eq': Prim('(Yaql.Scalar.pyEq {0} {1})', [SVAL, SVAL], BOOL),
+         'NotEq': Prim('(!Yaql.Scalar.pyEq {0} {1})', [SVAL, SVAL], BOOL)},
+    codec=('Yaql.Drv.SrcCodec.decSVal', 'Yaql.Drv.SrcCodec.encSVal'),
+)
+
+area('Scalar', imports=['Yaql.Model.PyPrelude', 'Yaql.Model.PyNum', 'Yaql.Model.PyStr', 'Yaql.Model.Scalar'],
+     drv_imports=['Yaql.Drv.C15'], ambient_values={'F': 'Yaql.Drv.C15.machineOps'})
+
+M = 'yaql.standard_library.math:'
+CM = 'yaql.standard_library.common:'
+B = 'yaql.standard_library.boolean:'
+RUN = 'Yaql.Scalar.run F 0 .%s [%s]'
+
+for _py, _impl in [('binary_plus', 'mathPlus'), ('binary_minus', 'mathMinus'), ('multiplication', 'mathMul'),
+                   ('division', 'mathDiv'), ('modulo', 'mathMod')]:
+    target(M + _py, area='Scalar', owners=['C15'], raises=True, ambient=FOPS,
+           params=[('left', NUM), ('right', NUM)], ret=SVAL,
+           model='Yaql.PyNum.liftErr (%s)' % (RUN % (_impl, 'left.toSVal, right.toSVal')), theorem=_py + '_src_eq')
+for _py, _impl in [('unary_minus', 'mathUMinus'), ('unary_plus', 'mathUPlus')]:
+    target(M + _py, area='Scalar', owners=['C15'], ambient=FOPS,
+           params=[('op', NUM)], ret=SVAL,
+           model='Yaql.PyNum.valOf (%s)' % (RUN % (_impl, 'op.toSVal')), theorem=_py + '_src_eq')
+for _py, _impl in [('gt', 'mathGt'), ('gte', 'mathGte'), ('lt', 'mathLt'), ('lte', 'mathLte')]:
+    target(M + _py, area='Scalar', owners=['C15'], ambient=FOPS,
+           params=[('left', NUM), ('right', NUM)], ret='bool',
+           model='Yaql.PyNum.boolOf (%s)' % (RUN % (_impl, 'left.toSVal, right.toSVal')), theorem=_py + '_src_eq')
+for _py, _impl in [('gt', 'strGt'), ('gte', 'strGte'), ('lt', 'strLt'), ('lte', 'strLte')]:
+    target(S + _py, area='Scalar', owners=['C15'], ambient=FOPS, name='str_' + _py,
+           params=[('left', 'str'), ('right', 'str')], ret='bool',
+           model='Yaql.PyNum.boolOf (%s)' % (RUN % (_impl, '.str left, .str right')), theorem='str_%s_src_eq' % _py)
+for _py, _impl in [('eq', 'eq'), ('neq', 'neq')]:
+    target(CM + _py, area='Scalar', owners=['C15'], ambient=FOPS,
+           params=[('left', SVAL), ('right', SVAL)], ret='bool',
+           model='Yaql.PyNum.boolOf (%s)' % (RUN % (_impl, 'left, right')), theorem=_py + '_src_eq')
+for _py, _impl in [('left_lt_null', 'leftLtNull'), ('left_lte_null', 'leftLteNull'), ('left_gt_null', 'leftGtNull'),
+                   ('left_gte_null', 'leftGteNull'), ('null_lt_right', 'nullLtRight'), ('null_lte_right', 'nullLteRight'),
+                   ('null_gt_right', 'nullGtRight'), ('null_gte_right', 'nullGteRight'), ('null_lt_null', 'nullLtNull'),
+                   ('null_lte_null', 'nullLteNull'), ('null_gt_null', 'nullGtNull'), ('null_gte_null', 'nullGteNull')]:
+    target(CM + _py, area='Scalar', owners=['C15'], ambient=FOPS,
+           params=[('left', SVAL), ('right', SVAL)], ret='bool',
+           model='Yaql.PyNum.boolOf (%s)' % (RUN % (_impl, 'left, right')), theorem=_py + '_src_eq')
+for _py, _impl in [('and_', 'and'), ('or_', 'or')]:
+    target(B + _py, area='Scalar', owners=['C15'], ambient=FOPS,
+           params=[('left', 'fn() -> ' + SVAL), ('right', 'fn() -> ' + SVAL)], ret=SVAL,
+           model='Yaql.PyNum.valOf (%s)' % (RUN % (_impl, 'left, right')), theorem=_py + 'src_eq',
+           note='the lazy operands are total: a thunk is its value')
+target(B + 'not_', area='Scalar', owners=['C15'], ambient=FOPS,
+       params=[('arg', SVAL)], ret='bool',
+       model='Yaql.PyNum.boolOf (%s)' % (RUN % ('not', 'arg')), theorem='not_src_eq')
 
 
 def by_area():
